@@ -306,6 +306,14 @@ func c01r2(c *core.Ctx) {
 							if iw.e < len(call.Args) && iw.t < len(call.Args) && iw.r < len(call.Args) && m.ExprString(ast.Unparen(call.Args[iw.e])) == cr.entity {
 								row := m.ExprString(ast.Unparen(call.Args[iw.r]))
 								tab := m.ExprString(ast.Unparen(call.Args[iw.t]))
+								if iw.t == iw.r {
+									// the entry is passed as one value: its table and row fields at this call site
+									fs := valueFields(m, f, call.Args[iw.t])
+									if fs == nil || fs["entityIndex.row"] == nil || fs["entityIndex.table"] == nil {
+										return false, ""
+									}
+									row, tab = m.ExprString(ast.Unparen(fs["entityIndex.row"])), m.ExprString(ast.Unparen(fs["entityIndex.table"]))
+								}
 								if iw.viaID {
 									tab = tableIDExpr(m, f, call.Args[iw.t])
 									if !ids[tab] {
@@ -523,10 +531,20 @@ func moveSummaryOf(c *core.Ctx, g *core.Func) *moveSummary {
 					}
 				}
 			}
-			if fields == nil {
-				continue
-			}
 			cur := iwT{e: -1, t: -1, r: -1}
+			if fields == nil {
+				// the whole entry handed in as one parameter (placeEntity(e, at entityIndex)): t == r names it
+				val := as.Rhs[i]
+				if r, ok := ast.Unparen(as.Rhs[i]).(*ast.CallExpr); ok && m.IsBuiltin(r, "append") && len(r.Args) == 2 {
+					val = r.Args[1]
+				}
+				if pi := par(val); pi >= 0 && core.NamedName(m.Info.TypeOf(val)) == "entityIndex" {
+					fields = map[string]ast.Expr{}
+					cur.t, cur.r = pi, pi
+				} else {
+					continue
+				}
+			}
 			if v, ok := fields["entityIndex.table"]; ok {
 				if pi := par(v); pi >= 0 {
 					cur.t = pi
